@@ -104,13 +104,33 @@ pub fn faults_from_json(v: &Value) -> Vec<Fault> {
 
 pub struct Attacker {
     pub keys: Vec<Key>,
+    /// extra key-signing keys with assorted key tags: an attacker can grind a key whose (algorithm, key tag)
+    /// equals the victim's, so that the genuine DS is at least *tried* against his key
+    pub tagged: Vec<Key>,
 }
 
+pub const N_TAGGED: usize = 96;
+
 impl Attacker {
+    /// key tags of the attacker's spare KSKs (known to the hierarchy generator, which lets some
+    /// genuine KSKs land on one of them — the reverse of an attacker grinding his key)
+    pub fn tag_table(&self) -> Vec<u16> {
+        self.tagged.iter().map(|k| k.tag).collect()
+    }
+
     pub fn new() -> Attacker {
+        let mut a = Self::base();
+        let mut r = vh::prng::Rng::from_parts(0xA77AC, "C07/attacker-tagged", 0);
+        for _ in 0..N_TAGGED {
+            a.tagged.push(Key::build(&KeySpec { alg: 15, flags: 257, material: r.bytes(32), signs_keyset: true, signs_data: false, publish: true }));
+        }
+        a
+    }
+
+    fn base() -> Attacker {
         let ksk = KeySpec { alg: 15, flags: 257, material: (0..32u8).map(|i| i.wrapping_mul(7).wrapping_add(0xA7)).collect(), signs_keyset: true, signs_data: false, publish: true };
         let zsk = KeySpec { alg: 15, flags: 256, material: (0..32u8).map(|i| i.wrapping_mul(13).wrapping_add(0x5C)).collect(), signs_keyset: false, signs_data: true, publish: true };
-        Attacker { keys: vec![Key::build(&ksk), Key::build(&zsk)] }
+        Attacker { keys: vec![Key::build(&ksk), Key::build(&zsk)], tagged: Vec::new() }
     }
     pub fn ds_rdata(&self, owner: &Name) -> Vec<u8> {
         let k = &self.keys[0];
@@ -165,6 +185,8 @@ fn groups(recs: &[Rec]) -> Vec<(u8, Name, u16)> {
 
 pub struct Env<'a> {
     pub attacker: &'a Attacker,
+    /// the configured zones (a *malicious operator of another signed zone* signs with that zone's real keys)
+    pub zones: &'a [crate::hier::BZone],
     pub inception: u32,
     pub expiration: u32,
 }
@@ -226,7 +248,12 @@ pub fn apply(faults: &[Fault], qname: &Name, qtype: u16, honest: &Resp, env: &En
         }
     }
     for p in &prims {
-        let Some(zone) = p.zone.as_ref() else { continue };
+        let root: Name = Vec::new();
+        let zone = match (p.zone.as_ref(), p.op.as_str()) {
+            (Some(z), _) => z,
+            (None, "cross-zone-signature") => &root,
+            _ => continue,
+        };
         match p.op.as_str() {
             "strip-zone-sigs" => {
                 // everything the zone signed loses its signatures; its denial records disappear
@@ -258,9 +285,44 @@ pub fn apply(faults: &[Fault], qname: &Name, qtype: u16, honest: &Resp, env: &En
                 }
                 recs.push(Rec { sec, owner: zone.clone(), rtype: ty::DS, class: 1, ttl, rdata: ds });
             }
+            "cross-zone-signature" => {
+                // forged answer for the victim name, signed with the real keys of ANOTHER zone (p.recs[0].owner
+                // names it), Signer's Name = that zone. RFC 4035 5.3.1: the signer must be the zone that contains the RRset.
+                let Some(signer_zone) = p.recs.first().map(|r| fold(&r.owner)) else { continue };
+                let Some(sz) = env.zones.iter().find(|z| z.apex == signer_zone) else { continue };
+                for (sec, owner, t) in groups(&recs) {
+                    if sec != SEC_AN || !matches!(t, ty::A | ty::TXT | ty::MX | ty::AAAA | ty::NS | ty::SOA | ty::CNAME) {
+                        continue;
+                    }
+                    let ttl = recs.iter().find(|r| r.sec == sec && r.rtype == t && fold(&r.owner) == owner).map(|r| r.ttl).unwrap_or(3600);
+                    if p.n == 1 {
+                        recs.retain(|r| !(r.sec == sec && r.rtype == t && fold(&r.owner) == owner));
+                        recs.push(Rec { sec, owner: owner.clone(), rtype: t, class: 1, ttl, rdata: marker_rdata(t, 55) });
+                    }
+                    let rdatas: Vec<Vec<u8>> = recs.iter().filter(|r| r.sec == sec && r.rtype == t && fold(&r.owner) == owner).map(|r| r.rdata.clone()).collect();
+                    recs.retain(|r| !covers(r, &owner, t, sec));
+                    for s in make_rrsigs(&SignerKeys { apex: &sz.apex, keys: &sz.keys }, &owner, t, ttl, &rdatas, None, env.inception, env.expiration) {
+                        recs.push(Rec { sec, owner: owner.clone(), rtype: ty::RRSIG, class: 1, ttl, rdata: s });
+                    }
+                }
+            }
             "attacker-keyset" => {
+                // n: 0 re-signed, 1 forged data, 2 re-signed with a KSK whose key tag equals the genuine KSK's,
+                // 3 same + forged data, 4 attacker ZSK slipped into the genuine key set (genuine RRSIG kept) + forged data
+                let genuine_ksk_tags: Vec<u16> = recs.iter().filter(|r| r.rtype == ty::DNSKEY && fold(&r.owner) == *zone && r.rdata.len() > 4 && r.rdata[..2] == [1, 1]).map(|r| crate::refsign::key_tag(&r.rdata)).collect();
+                let tagged = if p.n == 2 || p.n == 3 { env.attacker.tagged.iter().find(|k| genuine_ksk_tags.contains(&k.tag)) } else { None };
+                let forge = matches!(p.n, 1 | 3 | 4);
+                let mut akeys: Vec<&Key> = env.attacker.keys.iter().collect();
+                if let Some(k) = tagged {
+                    akeys[0] = k;
+                }
                 for (sec, owner, t) in groups(&recs) {
                     let is_keyset = t == ty::DNSKEY && owner == *zone;
+                    if is_keyset && p.n == 4 {
+                        let ttl = recs.iter().find(|r| r.sec == sec && r.rtype == t && fold(&r.owner) == owner).map(|r| r.ttl).unwrap_or(3600);
+                        recs.push(Rec { sec, owner: owner.clone(), rtype: ty::DNSKEY, class: 1, ttl, rdata: env.attacker.keys[1].rdata.clone() });
+                        continue;
+                    }
                     let old_sig = recs.iter().find(|r| covers(r, &owner, t, sec) && rrsig_signer(&r.rdata).as_ref() == Some(zone)).cloned();
                     if !is_keyset && old_sig.is_none() {
                         continue;
@@ -268,10 +330,10 @@ pub fn apply(faults: &[Fault], qname: &Name, qtype: u16, honest: &Resp, env: &En
                     let ttl = recs.iter().find(|r| r.sec == sec && r.rtype == t && fold(&r.owner) == owner).map(|r| r.ttl).unwrap_or(3600);
                     if is_keyset {
                         recs.retain(|r| !(r.sec == sec && r.rtype == ty::DNSKEY && fold(&r.owner) == owner));
-                        for k in &env.attacker.keys {
+                        for k in &akeys {
                             recs.push(Rec { sec, owner: owner.clone(), rtype: ty::DNSKEY, class: 1, ttl, rdata: k.rdata.clone() });
                         }
-                    } else if p.n == 1 && sec == SEC_AN && matches!(t, ty::A | ty::TXT | ty::MX | ty::AAAA) {
+                    } else if forge && sec == SEC_AN && matches!(t, ty::A | ty::TXT | ty::MX | ty::AAAA) {
                         // forged content under the attacker's signature
                         recs.retain(|r| !(r.sec == sec && r.rtype == t && fold(&r.owner) == owner));
                         recs.push(Rec { sec, owner: owner.clone(), rtype: t, class: 1, ttl, rdata: marker_rdata(t, 77) });
@@ -279,7 +341,8 @@ pub fn apply(faults: &[Fault], qname: &Name, qtype: u16, honest: &Resp, env: &En
                     let rdatas: Vec<Vec<u8>> = recs.iter().filter(|r| r.sec == sec && r.rtype == t && fold(&r.owner) == owner).map(|r| r.rdata.clone()).collect();
                     let labels = old_sig.as_ref().and_then(|s| s.rdata.get(3).copied());
                     recs.retain(|r| !covers(r, &owner, t, sec));
-                    for s in make_rrsigs(&SignerKeys { apex: zone, keys: &env.attacker.keys }, &owner, t, ttl, &rdatas, labels, env.inception, env.expiration) {
+                    let signer_keys: Vec<Key> = akeys.iter().map(|k| Key::build(&k.spec)).collect();
+                    for s in make_rrsigs(&SignerKeys { apex: zone, keys: &signer_keys }, &owner, t, ttl, &rdatas, labels, env.inception, env.expiration) {
                         recs.push(Rec { sec, owner: owner.clone(), rtype: ty::RRSIG, class: 1, ttl, rdata: s });
                     }
                 }
